@@ -398,7 +398,7 @@ def hex_from_temp(value: bool | float | None) -> HexStr4:
     # if not -(2**7) <= value < 2**7:  # TODO: tighten range
     #     raise ValueError(f"Invalid temp: {value} is out of range")
     temp = round(value * 100)
-    if not -(2**15) <= temp < 2**15:
+    if not -(2**15) <= temp < 2**15 or temp < -27315:  # c.f. hex_to_temp()
         raise ValueError(f"Invalid temp: {value} is out of range")
     return f"{temp if temp >= 0 else temp + 2 ** 16:04X}"
 
